@@ -4,6 +4,7 @@ import Scion.Proofs.NetSteps
 import Scion.Proofs.NetEdge
 import Scion.Proofs.NetSpecEdge
 import Scion.Proofs.NetPeerEdge
+import Scion.Proofs.NetSibling
 /-!
 # C02 — Paths built from beacons are accepted hop by hop and reach the destination
 
@@ -153,6 +154,37 @@ theorem C02_single_router_partial (mac : MacFn) (net : Net) (now : Nat) (edges :
         | none => simp [Joint, h1, h2] at hj
         | some k2 =>
           exact peering_accepted_partial mac net now hWF hUp hSR e1 e2 src dst c k1 k2 h1 h2 hJ hp hexp
+
+/-- **Several border routers per AS, transit hop** (first step towards dropping `SingleRouter`):
+    the router `r1` owning the ingress interface validates the hop, applies the ingress SegID
+    update and hands the packet, unchanged otherwise, to the sibling router `r2` owning the egress
+    interface; `r2` accepts it only over the sibling link from exactly that router
+    (`validateTransitUnderlaySrc`), validates the hop again and sends it out — with exactly the
+    SegID and pointers a single router produces (`transit_step`). -/
+theorem sibling_handover_partial (mac : MacFn) (net : Net) (now src dst : Nat) (cd : Bool)
+    (ts seg a r1 r2 i : Nat) (h : Hop) (done todo : List Hop) (after : List Seg) (fi f : Iface)
+    (ha : ∀ s ∈ after, s.hops.length ≠ 1) (hdone : done ≠ []) (htodo : todo ≠ [])
+    (hi0 : i ≠ 0) (hi : i = inSide cd h) (hsrc : a ≠ src) (hdst : a ≠ dst)
+    (hmac : macOk mac (net a).key ⟨cd, false, usedSeg cd seg h, ts⟩ h = true)
+    (hexp : expired now ts h.exp = false) (hia : h.inAlert = false) (hea : h.egAlert = false)
+    (hfi : (net a).iface i = some fi) (hfio : fi.owner = r1) (h12 : r1 ≠ r2)
+    (hf : (net a).iface (outSide cd h) = some f) (ho0 : outSide cd h ≠ 0) (hup : f.up = true)
+    (hown : f.owner = r2) (hlt : ltSame fi.lt f.lt = true) :
+    routerStep mac (cfgR net a r1) now (.ext i) (a == src) (a == dst)
+        ⟨[], ⟨cd, false, seg, ts⟩, done, h, todo, after⟩ =
+      .forward (outSide cd h) ⟨[], ⟨cd, false, usedSeg cd seg h, ts⟩, done, h, todo, after⟩ ∧
+    routerStep mac (cfgR net a r2) now (.sibling r1) (a == src) (a == dst)
+        ⟨[], ⟨cd, false, usedSeg cd seg h, ts⟩, done, h, todo, after⟩ =
+      .forward (outSide cd h)
+        (mkCur [] ⟨cd, false, nextSeg cd seg h, ts⟩ (done ++ [h]) todo after) := by
+  refine ⟨?_, ?_⟩
+  · exact sibling_ingress_step mac net now src dst cd ts seg a r1 i h [] done todo after fi f (by simp) ha
+      (by have := List.length_pos_iff.mpr hdone; omega) htodo hi0 hi hsrc hdst hmac hexp hia hea hfi hf ho0
+      (by rw [hown]; exact Ne.symm h12) hlt
+  · have := sibling_egress_step mac net now src dst cd ts (usedSeg cd seg h) a r1 r2 i h done todo after fi f
+      ha hdone htodo hi hsrc hdst hmac hexp hea hia hfi hfio h12 hf ho0 hup hown
+    rw [sibling_handover_segid] at this
+    exact this
 
 /-- What is still open: several border routers per AS (sibling hand-over); `C02_full` is the
     statement without `SingleRouter`. -/
